@@ -461,7 +461,8 @@ def _b_ord(I, a, k):
     if isinstance(v, str):
         return ord(v)
     if isinstance(v, Sym) and v.kind == STR:
-        return Sym(INT, z3.StrToCode(v.t))
+        from . import specnative
+        return specnative.char_code(I, v)
     raise Unsupported('ord')
 
 
@@ -800,6 +801,23 @@ def call_method(I, recv, name, args, kwargs):
             L.arr_append(I, recv, args[0])
             return None
         raise Unsupported('symbolic list method ' + name)
+    if isinstance(recv, SRecList):
+        if name == 'append':
+            o = I.resolve(args[0])
+            if not isinstance(o, Obj):
+                raise Unsupported('append of a non-object to a record list')
+            tn = I.term(recv.n)
+            for fname, (kind, arr) in list(recv.fields.items()):
+                if fname not in o.fields:
+                    raise Unsupported(f'appended object lacks field {fname}')
+                recv.fields[fname] = (kind, z3.Store(arr, tn, L.elem_term(I, I.resolve(o.fields[fname]), kind)))
+            for fname in o.fields:
+                if fname not in recv.fields:
+                    raise Unsupported(f'record list has no column for field {fname}')
+            recv.n = I.binop(ast.Add, recv.n, 1)
+            o.frozen = True
+            return None
+        raise Unsupported('symbolic record list method ' + name)
     if isinstance(recv, L.PyDecimal):
         raise Unsupported('Decimal.' + name)
     if isinstance(recv, L.SMap):
@@ -885,6 +903,8 @@ def str_method(I, s, name, args, kwargs):
         r = SP.split(I, s, args[0])
         if r is not SP.NOTFOUND:
             return r
+    if isinstance(s, SChar) and name in ('isnumeric', 'isdigit', 'isdecimal', 'isspace', 'isalpha', 'isupper', 'islower', 'isalnum'):
+        return I.env.str_pred(I, name, s)
     if name in ('isnumeric', 'isdigit', 'isdecimal'):
         r = SP.is_digits(s)
         if r is not SP.NOTFOUND:
@@ -1173,7 +1193,9 @@ def fresh_like(I, v, hint):
     if isinstance(v, SRecList):
         n = I.fresh(INT, hint + '_n')
         I.p.assume(n.t >= 0)
-        return SRecList(n, {k: (kind, z3.Const(I.p.fresh_name(f'{hint}_{k}'), arr.sort())) for k, (kind, arr) in v.fields.items()}, v.cls)
+        v.n = n
+        v.fields = {k: (kind, z3.Const(I.p.fresh_name(f'{hint}_{k}'), arr.sort())) for k, (kind, arr) in v.fields.items()}
+        return v
     if isinstance(v, SOpt):
         return SOpt(z3.Bool(I.p.fresh_name(hint + '_none')), fresh_like(I, v.val, hint), v.absent)
     if isinstance(v, tuple):
